@@ -43,7 +43,16 @@ class Terminal(Expr):
         f = mapping.get(self)
         # No mapping, trying to evaluate self as a constant
         if f is None:
+            # Only terminals that define their own scalar conversion can be
+            # evaluated as constants; the generic Expr.__float__ calls back
+            # into this method and would recurse without end.
+            own_conversion = (
+                type(self).__float__ is not Expr.__float__
+                or type(self).__complex__ is not Expr.__complex__
+            )
             try:
+                if not own_conversion:
+                    raise TypeError("No scalar conversion available.")
                 try:
                     f = float(self)
                 except TypeError:
